@@ -89,6 +89,22 @@ def _diffpos(a, b):
     return {"differing_positions": [i for i in range(min(len(a), len(b))) if a[i] != b[i]], "len": [len(a), len(b)]}
 
 
+def _preimport():
+    """Hypothesis (6.13x and later) mixes constants harvested from the source of every *local* module present in
+    sys.modules into its draws.  The library modules an oracle imports lazily would therefore make the generated cases
+    depend on which forked worker happened to run which shard first.  Import everything the oracles touch in the parent,
+    before any worker is forked, so that every worker sees the same module set."""
+    import importlib
+    import pkgutil
+
+    import okdmr.dmrlib.etsi as etsi
+
+    for m in pkgutil.walk_packages(etsi.__path__, "okdmr.dmrlib.etsi."):
+        importlib.import_module(m.name)
+    importlib.import_module("okdmr.dmrlib.etsi.layer2.burst")
+    importlib.import_module("hypothesis.strategies")
+
+
 # ---------------------------------------------------------------------------------------------- data bursts
 
 
@@ -204,6 +220,7 @@ def _tally_data(sub, c, t: Tally):
 
 
 def drv_data_grid(ctx: Ctx, sub: SubCheck):
+    _preimport()
     items = []
     for vi, (kind, variant) in enumerate(G.VARIANTS):
         for cc in range(16):
@@ -235,6 +252,7 @@ def _variant_strategy(kind, variant):
 
 
 def drv_data_random(ctx: Ctx, sub: SubCheck):
+    _preimport()
     # one Hypothesis search per PDU variant (a single search over all variants starves some of them: Hypothesis spent 3 of
     # 1120 examples on HyteraIPSCSync and 2 on UDT headers when the variant was drawn with sampled_from)
     def hyp(kv, t: Tally):
@@ -319,6 +337,7 @@ def _voice_payload(rng):
 
 
 def drv_voice_grid(ctx: Ctx, sub: SubCheck):
+    _preimport()
     k = ctx.pick(4, 24)
     items = [("emb", cc, pi, lcss) for cc in range(16) for pi in range(2) for lcss in range(4)] + [("sync", s, 0, 0) for s in VOICE_SYNC_NAMES for _ in range(8)]
 
@@ -340,6 +359,7 @@ def drv_voice_grid(ctx: Ctx, sub: SubCheck):
 
 
 def drv_voice_random(ctx: Ctx, sub: SubCheck):
+    _preimport()
     from hypothesis import strategies as st
 
     voice = st.integers(0, 2**216 - 1).map(lambda v: "%054x" % v)
